@@ -1,5 +1,6 @@
 import SurfProofs.Lemmas.Sgr
 import SurfProofs.Lemmas.SgrColorItems
+import SurfProofs.Lemmas.SgrExt
 import SurfProofs.Lemmas.SgrWriter
 /-!
 # C06 — the library reads back its own SGR output and applies it with SGR semantics
@@ -123,15 +124,22 @@ theorem underChunk_closed (k : Nat) :
     have e : (1 ≤ k + 1 ∧ k + 1 ≤ 5) ↔ (k + 1 ≤ 5) := by omega
     simpa [e] using this
 
-/-- **C06, round trip of a face.** For every face with opaque 8-bit colours the `Face` command the
-encoder writes in true-colour mode is read back as a modification that, applied to ANY face, yields
-exactly the written one — colours, underline style, bold, italic, blink, strike — except `REVERSE`,
-which a face-modification record cannot express. -/
-theorem C06_roundtrip_face (f : Face) (hfg : colorOk f.fg) (hbg : colorOk f.bg) (hu : f.under ≤ 5) (g : DFace) :
-    apply (sgrFace (joinSemi (faceChunks f .trueColor))) g =
-      { fg := f.fg.map fun c => ⟨c.r, c.g, c.b, 255⟩, bg := f.bg.map fun c => ⟨c.r, c.g, c.b, 255⟩,
-        under := f.under, bold := f.bold, italic := f.italic, blink := f.blink, reverse := false,
-        strike := f.strike } := by
+/-- the record a written `Face` is read back as: reset first, then every colour, the underline style and every
+flag that is set (`REVERSE` has no field) -/
+def faceFMod (f : SurfModel.Vt.Face) : FMod :=
+  { reset := true
+    fg := f.fg.map fun c => ⟨c.r, c.g, c.b, 255⟩
+    bg := f.bg.map fun c => ⟨c.r, c.g, c.b, 255⟩
+    underline := if 1 ≤ f.under then some f.under else none
+    underlineColor := none
+    bold := if f.bold then some true else none
+    italic := if f.italic then some true else none
+    blink := if f.blink then some true else none
+    strike := if f.strike then some true else none }
+
+/-- `sgr_face` of what the encoder writes for a `Face` is exactly that record -/
+theorem roundtrip_face_record (f : SurfModel.Vt.Face) (hfg : colorOk f.fg) (hbg : colorOk f.bg) (hu : f.under ≤ 5) :
+    sgrFace (joinSemi (faceChunks f .trueColor)) = faceFMod f := by
   have hne : faceChunks f .trueColor ≠ [] := by simp [faceChunks]
   have h0 : DClosed [[48]] (fun _ => ({ reset := true } : FMod)) :=
     DClosed.single [48] _ (by intro fm rest; simp [reset_step])
@@ -152,13 +160,32 @@ theorem C06_roundtrip_face (f : Face) (hfg : colorOk f.fg) (hbg : colorOk f.bg) 
   simp only at hu
   cases fg <;> cases bg <;> cases bold <;> cases italic <;> cases blink <;> cases reverse <;> cases strike <;>
     (rcases under with _ | _ | _ | _ | _ | _ | n <;>
-      (try simp [Function.comp, updColor, setColor, SurfModel.Sgr.apply, setFlag]) <;> (try omega))
+      (try simp [Function.comp, updColor, setColor, faceFMod]) <;> (try omega))
+
+/-- **C06, round trip of a face.** For every face with opaque 8-bit colours the `Face` command the
+encoder writes in true-colour mode is read back as a modification that, applied to ANY face, yields
+exactly the written one — colours, underline style, bold, italic, blink, strike — except `REVERSE`,
+which a face-modification record cannot express. -/
+theorem C06_roundtrip_face (f : Face) (hfg : colorOk f.fg) (hbg : colorOk f.bg) (hu : f.under ≤ 5) (g : DFace) :
+    apply (sgrFace (joinSemi (faceChunks f .trueColor))) g =
+      { fg := f.fg.map fun c => ⟨c.r, c.g, c.b, 255⟩, bg := f.bg.map fun c => ⟨c.r, c.g, c.b, 255⟩,
+        under := f.under, bold := f.bold, italic := f.italic, blink := f.blink, reverse := false,
+        strike := f.strike } := by
+  rw [roundtrip_face_record f hfg hbg hu]
+  obtain ⟨fg, bg, under, bold, italic, blink, reverse, strike⟩ := f
+  cases fg <;> cases bg <;> cases bold <;> cases italic <;> cases blink <;> cases strike <;>
+    (rcases under with _ | n <;> simp [faceFMod, SurfModel.Sgr.apply, setFlag])
 
 /-! ## SGR semantics of the decoder and of `FaceModify::apply` -/
 
 /-- A well-formed SGR parameter: every parameter the face-modification record can express, in every
 spelling the decoder's grammar admits (`;` and `:` colour forms, `4`, `4:k`, `21`, `24`, the empty
-parameter, named and bright colours, palette indices). -/
+parameter, named and bright colours, palette indices), and `num z n`: a parameter that is ONE number `n`
+written with `z` leading zeros (the `…P` constructors are the colour forms and `4:k` with leading zeros in their
+numbers) — which besides `001`-style spellings of the supported parameters covers
+the legal parameters the decoder does not support (2 faint, 6, 8 conceal, 10–20 fonts, 26, 28, 50–57,
+59 default underline colour, 60–89, 98, 99, 108 …), which both the decoder and the reference machine
+(`.unknown`) leave without effect. -/
 inductive Item where
   | simple (s : Simple)
   | rgbSemi (role : Role) (r g b : Nat)
@@ -167,6 +194,14 @@ inductive Item where
   | rgbColon3 (role : Role) (r g b : Nat)
   | idxColon (role : Role) (n : Nat)
   | named (bg bright : Bool) (k : Nat)
+  | num (z n : Nat)
+  /-- the colour forms and `4:k` with leading zeros in their numbers (`z…` = number of zeros) -/
+  | rgbSemiP (role : Role) (zr zg zb r g b : Nat)
+  | idxSemiP (role : Role) (z n : Nat)
+  | rgbColon4P (role : Role) (zr zg zb r g b : Nat)
+  | rgbColon3P (role : Role) (zr zg zb r g b : Nat)
+  | idxColonP (role : Role) (z n : Nat)
+  | ulStyleP (z k : Nat)
 
 def Item.spec : Item → ItemSpec
   | .simple s => s.spec
@@ -176,14 +211,32 @@ def Item.spec : Item → ItemSpec
   | .rgbColon3 role r g b => SurfProofs.Lemmas.SgrSem.rgbColon3 role r g b
   | .idxColon role n => SurfProofs.Lemmas.SgrSem.idxColon role n
   | .named bg bright k => SurfProofs.Lemmas.SgrSem.named bg bright k
+  | .num z n => numItem z n
+  | .rgbSemiP role zr zg zb r g b => SurfProofs.Lemmas.SgrSem.rgbSemiP role zr zg zb r g b
+  | .idxSemiP role z n => SurfProofs.Lemmas.SgrSem.idxSemiP role z n
+  | .rgbColon4P role zr zg zb r g b => SurfProofs.Lemmas.SgrSem.rgbColon4P role zr zg zb r g b
+  | .rgbColon3P role zr zg zb r g b => SurfProofs.Lemmas.SgrSem.rgbColon3P role zr zg zb r g b
+  | .idxColonP role z n => SurfProofs.Lemmas.SgrSem.idxColonP role z n
+  | .ulStyleP z k => SurfProofs.Lemmas.SgrSem.ulStyleP z k
 
 /-- parameter ranges: 8-bit colour components and palette indices, underline style 0..5, colour
-number 0..7 -/
+number 0..7; a single number: anything but 38 / 48 / 58 (alone they are the head of a colour and the
+decoder consumes what follows: malformed) and but 7 / 27 / 39 / 49 (reverse video and default colours, which
+a face-modification record cannot express: known finding `C06-inexpressible`, see `Item.okX`) -/
 def Item.ok : Item → Prop
   | .simple s => s.ok
   | .rgbSemi _ r g b | .rgbColon4 _ r g b | .rgbColon3 _ r g b => r ≤ 255 ∧ g ≤ 255 ∧ b ≤ 255
   | .idxSemi _ n | .idxColon _ n => n ≤ 255
   | .named _ _ k => k < 8
+  | .num _ n => (n ≠ 38 ∧ n ≠ 48 ∧ n ≠ 58) ∧ (n ≠ 7 ∧ n ≠ 27 ∧ n ≠ 39 ∧ n ≠ 49)
+  | .rgbSemiP _ _ _ _ r g b | .rgbColon4P _ _ _ _ r g b | .rgbColon3P _ _ _ _ r g b => r ≤ 255 ∧ g ≤ 255 ∧ b ≤ 255
+  | .idxSemiP _ _ n | .idxColonP _ _ n => n ≤ 255
+  | .ulStyleP _ k => k ≤ 5
+
+/-- the same domain plus the four inexpressible parameters 7, 27, 39, 49 -/
+def Item.okX : Item → Prop
+  | .num _ n => n ≠ 38 ∧ n ≠ 48 ∧ n ≠ 58
+  | it => it.ok
 
 theorem Item.spec_ok (it : Item) (h : it.ok) : ItemOk it.spec := by
   cases it with
@@ -194,6 +247,65 @@ theorem Item.spec_ok (it : Item) (h : it.ok) : ItemOk it.spec := by
   | rgbColon3 role r g b => exact rgbColon3_ok role r g b h.1 h.2.1 h.2.2
   | idxColon role n => exact idxColon_ok role n h
   | named bg bright k => exact named_ok bg bright k h
+  | num z n => exact numItem_ok z n h.1 h.2
+  | rgbSemiP role zr zg zb r g b => exact rgbSemiP_ok role zr zg zb r g b h.1 h.2.1 h.2.2
+  | idxSemiP role z n => exact idxSemiP_ok role z n h
+  | rgbColon4P role zr zg zb r g b => exact rgbColon4P_ok role zr zg zb r g b h.1 h.2.1 h.2.2
+  | rgbColon3P role zr zg zb r g b => exact rgbColon3P_ok role zr zg zb r g b h.1 h.2.1 h.2.2
+  | idxColonP role z n => exact idxColonP_ok role z n h
+  | ulStyleP z k => exact ulStyleP_ok z k h
+
+theorem Item.ops_expressible (it : Item) (h : it.ok) : ∀ op ∈ it.spec.ops, inexpressibleOp op = false := by
+  intro op hop
+  cases it with
+  | simple s => cases s <;> (simp [Item.spec, Simple.spec] at hop; subst hop; rfl)
+  | rgbSemi role r g b => cases role <;> (simp [Item.spec, SurfProofs.Lemmas.SgrSem.rgbSemi, colorOp] at hop; subst hop; rfl)
+  | idxSemi role n => cases role <;> (simp [Item.spec, SurfProofs.Lemmas.SgrSem.idxSemi, colorOp] at hop; subst hop; rfl)
+  | rgbColon4 role r g b => cases role <;> (simp [Item.spec, SurfProofs.Lemmas.SgrSem.rgbColon4, colorOp] at hop; subst hop; rfl)
+  | rgbColon3 role r g b => cases role <;> (simp [Item.spec, SurfProofs.Lemmas.SgrSem.rgbColon3, colorOp] at hop; subst hop; rfl)
+  | idxColon role n => cases role <;> (simp [Item.spec, SurfProofs.Lemmas.SgrSem.idxColon, colorOp] at hop; subst hop; rfl)
+  | named bg bright k =>
+    cases bg <;> (simp [Item.spec, SurfProofs.Lemmas.SgrSem.named, colorOp] at hop; subst hop; rfl)
+  | num z n =>
+    simp only [Item.spec, numItem, List.mem_singleton] at hop
+    subst hop
+    exact numOp_expressible n h.2
+  | rgbSemiP role zr zg zb r g b =>
+    cases role <;> (simp [Item.spec, SurfProofs.Lemmas.SgrSem.rgbSemiP, colorOp] at hop; subst hop; rfl)
+  | idxSemiP role z n =>
+    cases role <;> (simp [Item.spec, SurfProofs.Lemmas.SgrSem.idxSemiP, colorOp] at hop; subst hop; rfl)
+  | rgbColon4P role zr zg zb r g b =>
+    cases role <;> (simp [Item.spec, SurfProofs.Lemmas.SgrSem.rgbColon4P, colorOp] at hop; subst hop; rfl)
+  | rgbColon3P role zr zg zb r g b =>
+    cases role <;> (simp [Item.spec, SurfProofs.Lemmas.SgrSem.rgbColon3P, colorOp] at hop; subst hop; rfl)
+  | idxColonP role z n =>
+    cases role <;> (simp [Item.spec, SurfProofs.Lemmas.SgrSem.idxColonP, colorOp] at hop; subst hop; rfl)
+  | ulStyleP z k => simp [Item.spec, SurfProofs.Lemmas.SgrSem.ulStyleP] at hop; subst hop; rfl
+
+theorem Item.spec_okX (it : Item) (h : it.okX) : ItemOkX it.spec := by
+  cases it with
+  | num z n => exact numItem_okX z n h
+  | simple s => exact (Item.spec_ok (.simple s) h).toX (Item.ops_expressible (.simple s) h)
+  | rgbSemi role r g b => exact (Item.spec_ok (.rgbSemi role r g b) h).toX (Item.ops_expressible (.rgbSemi role r g b) h)
+  | idxSemi role n => exact (Item.spec_ok (.idxSemi role n) h).toX (Item.ops_expressible (.idxSemi role n) h)
+  | rgbColon4 role r g b => exact (Item.spec_ok (.rgbColon4 role r g b) h).toX (Item.ops_expressible (.rgbColon4 role r g b) h)
+  | rgbColon3 role r g b => exact (Item.spec_ok (.rgbColon3 role r g b) h).toX (Item.ops_expressible (.rgbColon3 role r g b) h)
+  | idxColon role n => exact (Item.spec_ok (.idxColon role n) h).toX (Item.ops_expressible (.idxColon role n) h)
+  | named bg bright k => exact (Item.spec_ok (.named bg bright k) h).toX (Item.ops_expressible (.named bg bright k) h)
+  | rgbSemiP role zr zg zb r g b =>
+    exact (Item.spec_ok (.rgbSemiP role zr zg zb r g b) h).toX (Item.ops_expressible (.rgbSemiP role zr zg zb r g b) h)
+  | idxSemiP role z n => exact (Item.spec_ok (.idxSemiP role z n) h).toX (Item.ops_expressible (.idxSemiP role z n) h)
+  | rgbColon4P role zr zg zb r g b =>
+    exact (Item.spec_ok (.rgbColon4P role zr zg zb r g b) h).toX (Item.ops_expressible (.rgbColon4P role zr zg zb r g b) h)
+  | rgbColon3P role zr zg zb r g b =>
+    exact (Item.spec_ok (.rgbColon3P role zr zg zb r g b) h).toX (Item.ops_expressible (.rgbColon3P role zr zg zb r g b) h)
+  | idxColonP role z n => exact (Item.spec_ok (.idxColonP role z n) h).toX (Item.ops_expressible (.idxColonP role z n) h)
+  | ulStyleP z k => exact (Item.spec_ok (.ulStyleP z k) h).toX (Item.ops_expressible (.ulStyleP z k) h)
+
+theorem Item.ok_okX (it : Item) (h : it.ok) : it.okX := by
+  cases it with
+  | num z n => exact h.1
+  | _ => exact h
 
 /-- the parameter bytes of an SGR sequence made of the given items (between `ESC [` and `m`) -/
 def sgrBytes (items : List Item) : List Nat := joinSemi (items.flatMap fun it => it.spec.chunks)
@@ -211,16 +323,59 @@ theorem C06_apply_sgr (items : List Item) (hok : ∀ it ∈ items, it.ok) (hne :
     (by simpa using hne) f
   simpa [sgrBytes, List.flatMap_map, view] using h
 
-/-- the decoder's colour tables are xterm's -/
+/-- **C06, SGR semantics next to the inexpressible parameters.** The same on the larger domain that also
+admits SGR 7, 27 (reverse on / off) and 39, 49 (default foreground / background), which the public
+face-modification record cannot express and the decoder ignores (known finding `C06-inexpressible`), against
+the reference machine in which exactly these four operations are no-ops (`refApplyX`): whatever ELSE stands
+in a sequence containing them — before, between and after them — is applied with SGR semantics. This is the
+specification the `c06 refx` oracle lines are judged by, so a parameter string that contains an inexpressible
+parameter is not exempt from judgement. -/
+theorem C06_apply_sgr_x (items : List Item) (hok : ∀ it ∈ items, it.okX) (hne : items ≠ []) (f : DFace) :
+    refApplyX (sgrBytes items) f = some (attrOfDFace (apply (sgrFace (sgrBytes items)) f)) := by
+  have h := items_agree_x (items.map Item.spec)
+    (by intro s hs; obtain ⟨it, hit, rfl⟩ := List.mem_map.mp hs; exact it.spec_okX (hok it hit))
+    (by simpa using hne) f
+  simpa [sgrBytes, List.flatMap_map, view] using h
+
+/-- on parameter strings without the four inexpressible parameters the two reference machines coincide -/
+theorem C06_refx_agrees (items : List Item) (hok : ∀ it ∈ items, it.ok) (hne : items ≠ []) (f : DFace) :
+    refApplyX (sgrBytes items) f = refApply (sgrBytes items) f := by
+  rw [C06_apply_sgr items hok hne f, C06_apply_sgr_x items (fun it hit => it.ok_okX (hok it hit)) hne f]
+
+/-- the library's naming table (decoder `COLORS`): the sixteen named colours, indices 0–7 normal and 8–15
+bright, as fixed by the crate (VGA-style: 128 for the normal intensities, 192 for white, 255 for bright) -/
+def namedColors : List (Nat × Nat × Nat × Nat) :=
+  [(0, 0, 0, 255), (128, 0, 0, 255), (0, 128, 0, 255), (128, 128, 0, 255), (0, 0, 128, 255), (128, 0, 128, 255),
+   (0, 128, 128, 255), (192, 192, 192, 255), (128, 128, 128, 255), (255, 0, 0, 255), (0, 255, 0, 255),
+   (255, 255, 0, 255), (0, 0, 255, 255), (255, 0, 255, 255), (0, 255, 255, 255), (255, 255, 255, 255)]
+
+/-- the decoder's colour tables are xterm's, and the sixteen named colours are — value by value, in order —
+the library's naming table (the tables are regenerated from the implementation on every run, so a changed or
+permuted entry of `COLORS`, `CUBE` or `GREYS` breaks this theorem) -/
 theorem C06_tables :
     SurfModel.Generated.cube6 = [0, 95, 135, 175, 215, 255] ∧
     SurfModel.Generated.greys24 = (List.range 24).map (fun i => 8 + 10 * i) ∧
     SurfModel.Generated.colors16.length = 16 ∧
-    (∀ n : Fin 256, (palette n.val).isSome = true) :=
-  ⟨tables_xterm.1, tables_xterm.2.1, tables_xterm.2.2, palette_total⟩
+    (∀ n : Fin 256, (palette n.val).isSome = true) ∧
+    SurfModel.Generated.colors16 = namedColors :=
+  ⟨tables_xterm.1, tables_xterm.2.1, tables_xterm.2.2, palette_total, by decide⟩
 
-example : (∀ it ∈ [Item.simple .bold, .rgbColon4 .fg 1 2 3, .named true true 7, .simple (.ulStyle 3)], it.ok) := by
-  intro it hit; simp at hit; rcases hit with rfl | rfl | rfl | rfl <;> simp [Item.ok, Simple.ok]
+example : (∀ it ∈ [Item.simple .bold, .rgbColon4 .fg 1 2 3, .named true true 7, .simple (.ulStyle 3), .num 2 1, .num 0 53],
+    it.ok) := by
+  intro it hit; simp at hit; rcases hit with rfl | rfl | rfl | rfl | rfl | rfl <;> simp [Item.ok, Simple.ok]
+/-- `001` (bold with leading zeros), the unsupported `53` (overlined) and `2` (faint) around a colour -/
+example : sgrBytes [.num 2 1, .num 0 53, .named false false 1, .num 0 2] =
+    [48, 48, 49, 59, 53, 51, 59, 51, 49, 59, 50] := by decide +kernel
+/-- leading zeros inside a colour and an underline style: `38;2;001;2;03;4:05` -/
+example : (∀ it ∈ [Item.rgbSemiP .fg 2 0 1 1 2 3, .ulStyleP 1 5], it.ok) ∧
+    sgrBytes [.rgbSemiP .fg 2 0 1 1 2 3, .ulStyleP 1 5] =
+      [51, 56, 59, 50, 59, 48, 48, 49, 59, 50, 59, 48, 51, 59, 52, 58, 48, 53] := by
+  refine ⟨?_, by decide +kernel⟩
+  intro it hit; simp at hit; rcases hit with rfl | rfl <;> simp [Item.ok]
+/-- the larger domain: `7` and `39` next to `1` -/
+example : (∀ it ∈ [Item.num 0 7, .num 0 1, .num 0 39], it.okX) ∧ ¬ (Item.num 0 7).ok := by
+  refine ⟨?_, by simp [Item.ok]⟩
+  intro it hit; simp at hit; rcases hit with rfl | rfl | rfl <;> simp [Item.okX]
 
 /-! Non-vacuity -/
 example : ModOk ⟨true, some ⟨1, 2, 3, 255, 0, 0⟩, none, some 3, none, some false, none, none, some true⟩ := by
@@ -358,6 +513,141 @@ example : (refRun exWriter (attrOfDFace {}) (exScript.map Span.piece)).map
     some [(97, some 4278190335, none, 8), (19990, some 4278190335, none, 8), (32, none, none, 0),
       (98, some 4278190335, some 33023, 0)] := by
   decide +kernel
+
+/-! ## Round trip through the streaming command decoder (composition with C03 and C02) -/
+
+/-- what the property quantifies over: a face modification or a face with opaque 8-bit colours and one of the
+six underline styles, a character that is a Unicode scalar value other than `ESC` -/
+def CmdOk : SurfModel.Vt.Cmd → Prop
+  | .faceModify m => ModOk m
+  | .face f => colorOk f.fg ∧ colorOk f.bg ∧ f.under ≤ 5
+  | .char c => (c < 0xD800 ∨ (0xE000 ≤ c ∧ c < 0x110000)) ∧ c ≠ 27
+  | _ => False
+
+/-- what `TTYCommandDecoder` is to report for a written command: that face modification (nothing for the empty
+one: the encoder writes no byte), the record of the face, that character -/
+def readBack : SurfModel.Vt.Cmd → List SurfModel.Payload.Event
+  | .faceModify m => if faceModifyChunks m .trueColor = [] then [] else [.command (toFMod m)]
+  | .face f => [.command (faceFMod f)]
+  | .char c => [.char c]
+  | _ => []
+
+/-- the written bytes of a command as a piece of a script -/
+def pieceOf : SurfModel.Vt.Cmd → Piece
+  | .faceModify m => if faceModifyChunks m .trueColor = [] then .text [] else .sgr (joinSemi (faceModifyChunks m .trueColor))
+  | .face f => .sgr (joinSemi (faceChunks f .trueColor))
+  | .char c => .text [c]
+  | _ => .text []
+
+theorem pieceOf_bytes (kitty : Bool) (c : SurfModel.Vt.Cmd) (h : CmdOk c) : encode ⟨.trueColor, kitty⟩ c = (pieceOf c).bytes := by
+  cases c <;> simp only [CmdOk] at h
+  case faceModify m =>
+    by_cases he : faceModifyChunks m .trueColor = []
+    · simp [encode, pieceOf, he, Piece.bytes]
+    · have : (faceModifyChunks m .trueColor).isEmpty = false := by
+        cases hh : faceModifyChunks m .trueColor <;> simp_all
+      simp [encode, pieceOf, he, this, Piece.bytes, csiB]
+  case face f => simp [encode, pieceOf, Piece.bytes, csiB]
+  case char c => simp [encode, pieceOf, Piece.bytes]
+
+theorem pieceOf_ok (c : SurfModel.Vt.Cmd) (h : CmdOk c) : (pieceOf c).Ok := by
+  cases c <;> simp only [CmdOk] at h
+  case faceModify m =>
+    by_cases he : faceModifyChunks m .trueColor = []
+    · simp only [pieceOf, he, if_true]; intro x hx; simp at hx
+    · simp only [pieceOf, he, if_false]
+      exact (faceModifyChunks_good m .trueColor).join_bytes
+  case face f => exact (faceChunks_good f .trueColor).join_bytes
+  case char c =>
+    intro x hx
+    simp only [List.mem_singleton] at hx
+    subst hx
+    refine ⟨?_, h.2⟩
+    simp only [SurfModel.Payload.isScalar, Bool.or_eq_true, Bool.and_eq_true, decide_eq_true_eq]
+    omega
+
+theorem pieceOf_events (c : SurfModel.Vt.Cmd) (h : CmdOk c) : (pieceOf c).events = readBack c := by
+  cases c <;> simp only [CmdOk] at h
+  case faceModify m =>
+    by_cases he : faceModifyChunks m .trueColor = []
+    · simp [pieceOf, readBack, he, Piece.events]
+    · simp only [pieceOf, readBack, he, if_false, Piece.events, C06_roundtrip_modify m h he]
+  case face f => simp only [pieceOf, readBack, Piece.events, roundtrip_face_record f h.1 h.2.1 h.2.2]
+  case char c => simp [pieceOf, readBack, Piece.events]
+
+theorem flatMap_congr' {α β : Type} (l : List α) (f g : α → List β) (h : ∀ a ∈ l, f a = g a) :
+    l.flatMap f = l.flatMap g := by
+  induction l with
+  | nil => rfl
+  | cons a l ih =>
+    simp only [List.flatMap_cons]
+    rw [h a (by simp), ih (fun x hx => h x (by simp [hx]))]
+
+/-- **C06, round trip through the streaming decoder.** Any sequence of face modifications, faces (opaque 8-bit
+colours, six underline styles) and characters (Unicode scalar values other than `ESC`) is encoded in true-colour
+mode (`TTYEncoder::encode` per command, bytes concatenated) and the bytes are fed to the command decoder cut into
+reads ANYWHERE — inside an escape sequence, inside a character, empty reads. Then the decoder model (C03's
+tokenizer `feedAll` over a command automaton, C02's `commandOfItem` as payload decoder) reports exactly one command
+per written command, in order: the same face modification (nothing for the empty one, for which nothing is
+written), the record `faceFMod f` for a face (which applied to any face yields `f` without `REVERSE`:
+`C06_roundtrip_face`), the same character; no `Raw`, no panic, and the decoder ends in its initial state (nothing
+pending). `A` is any tagged automaton realising the command grammar, as in `C06_writer`. -/
+theorem C06_roundtrip_stream {σ : Type} (A : TAuto σ) (hR : RealisesCommand A) (hT : TermExact A.toAuto)
+    (kitty : Bool) (cmds : List SurfModel.Vt.Cmd) (hok : ∀ c ∈ cmds, CmdOk c) (chunks : List (List UInt8))
+    (hc : chunks.flatten = SurfModel.Grammar.bytes (cmds.flatMap (encode ⟨.trueColor, kitty⟩))) :
+    ∃ per, feedAll A.toAuto (init A.toAuto) chunks = .ok (per, init A.toAuto) ∧
+      per.flatten.map (commandOfItem A) = (cmds.flatMap readBack).map .ok := by
+  have hbytes : cmds.flatMap (encode ⟨.trueColor, kitty⟩) = (cmds.map pieceOf).flatMap Piece.bytes := by
+    rw [List.flatMap_map]
+    exact flatMap_congr' _ _ _ (fun c hcm => pieceOf_bytes kitty c (hok c hcm))
+  have hev : (cmds.map pieceOf).flatMap Piece.events = cmds.flatMap readBack := by
+    rw [List.flatMap_map]
+    exact flatMap_congr' _ _ _ (fun c hcm => pieceOf_events c (hok c hcm))
+  have hpok : ∀ p ∈ cmds.map pieceOf, p.Ok := by
+    intro p hp
+    obtain ⟨c, hcm, rfl⟩ := List.mem_map.mp hp
+    exact pieceOf_ok c (hok c hcm)
+  obtain ⟨per, h1, h2⟩ := SurfProofs.C03.C03_tokenize_reads A.toAuto hT.termOk chunks
+  obtain ⟨items, g1, g2⟩ := script_tokenize A hR hT (cmds.map pieceOf) hpok
+  have hs : chunks.flatten = scriptBytes (cmds.map pieceOf) := by rw [hc, hbytes]; rfl
+  rw [hs, g1] at h1 h2
+  simp only at h1 h2
+  rw [stateOf_nil] at h1
+  exact ⟨per, h1, by rw [h2, g2, hev]⟩
+
+/-- `C06_roundtrip_stream` for the command automaton compiled from the model grammar -/
+theorem C06_roundtrip_stream_model (kitty : Bool) (cmds : List SurfModel.Vt.Cmd) (hok : ∀ c ∈ cmds, CmdOk c)
+    (chunks : List (List UInt8))
+    (hc : chunks.flatten = SurfModel.Grammar.bytes (cmds.flatMap (encode ⟨.trueColor, kitty⟩))) :
+    ∃ per, feedAll commandModelAuto.toAuto (init commandModelAuto.toAuto) chunks = .ok (per, init commandModelAuto.toAuto) ∧
+      per.flatten.map (commandOfItem commandModelAuto) = (cmds.flatMap readBack).map .ok :=
+  C06_roundtrip_stream commandModelAuto commandModelAuto_realises commandModelAuto_termExact kitty cmds hok chunks hc
+
+/-- one command: every chunking of `encode (.faceModify m)` yields exactly that one command -/
+theorem C06_roundtrip_stream_one {σ : Type} (A : TAuto σ) (hR : RealisesCommand A) (hT : TermExact A.toAuto)
+    (kitty : Bool) (m : FaceModify) (h : ModOk m) (hne : faceModifyChunks m .trueColor ≠ [])
+    (chunks : List (List UInt8))
+    (hc : chunks.flatten = SurfModel.Grammar.bytes (encode ⟨.trueColor, kitty⟩ (.faceModify m))) :
+    ∃ per, feedAll A.toAuto (init A.toAuto) chunks = .ok (per, init A.toAuto) ∧
+      per.flatten.map (commandOfItem A) = [.ok (.command (toFMod m))] := by
+  have := C06_roundtrip_stream A hR hT kitty [.faceModify m] (by intro c hcm; simp at hcm; subst hcm; exact h) chunks
+    (by simpa using hc)
+  simpa [readBack, hne] using this
+
+/-- the hypotheses are met: bold off + a colour, a face with reverse set, `é`, a control character and DEL -/
+example : ∀ c ∈ [SurfModel.Vt.Cmd.faceModify ⟨false, some ⟨1, 2, 3, 255, 0, 0⟩, none, some 0, none, some false, none, none, none⟩,
+    .face ⟨none, some ⟨9, 8, 7, 255, 0, 0⟩, 3, true, false, false, true, false⟩, .char 233, .char 10, .char 127], CmdOk c := by
+  intro c hc
+  simp only [List.mem_cons, List.not_mem_nil, or_false] at hc
+  rcases hc with rfl | rfl | rfl | rfl | rfl
+  · refine ⟨?_, ?_, ?_, ?_⟩ <;> intro x hx <;> simp at hx <;> (try subst hx) <;> simp
+  · refine ⟨?_, ?_, ?_⟩
+    · intro x hx; simp at hx
+    · intro x hx; simp at hx; subst hx; simp
+    · simp
+  · simp [CmdOk]
+  · simp [CmdOk]
+  · simp [CmdOk]
 
 
 end SurfProofs.C06
